@@ -6,6 +6,12 @@ class C20(Spec):
     drv = "drv_c20"
     harness = "h_c20"
     required_theorems = ("C20.calcWork_antitone",)
+    level_text = ("Lean theorems about the model of CompactToBig/BigToCompact/CalcWork (work antitone in the target; "
+                  "re-compaction canonical; round trip keeps the mantissa precision) for all inputs; the model is tied to "
+                  "common/difficulty by a byte-exact differential run over every exponent x sign x mantissa edges, random "
+                  "compacts and integers of byte length 0..300.")
+    level_note = ("math/big behaves as Lean Int; bit operations modelled as div/mod; integers of >= 255 bytes are outside the "
+                  "8-bit exponent field (documented limit, targets are <= 2^256).")
     assumptions = (
         "math/big arithmetic behaves as Lean Int/Nat arithmetic",
         "bit operations of difficulty.go are modelled as div/mod by powers of two; the tie is the differential run",
